@@ -351,3 +351,13 @@ Print Assumptions C09_kernel_GetAlignment.
 Theorem C09_kernel_GetErasePolarity : forall attrs, go_FirmwareVolume_GetErasePolarity attrs = Ffs.fv_polarity attrs.
 Proof. exact go_FirmwareVolume_GetErasePolarity_tie. Qed.
 Print Assumptions C09_kernel_GetErasePolarity.
+
+(* ---- format constants ----
+   The models take their format constants from Gen/Consts.v, which is regenerated from /repo's
+   source on every run; Spec/ConstPins.v (committed, written by bin/mkpins) pins every one of them
+   to the value the specifications give it.  A constant that drifts in the Go source breaks this
+   theorem instead of being silently followed by model and generator. *)
+From Fiano Require Spec.ConstPins.
+Theorem C09_format_constants_pinned : Spec.ConstPins.pinned_c09.
+Proof. exact Spec.ConstPins.pins_c09. Qed.
+Print Assumptions C09_format_constants_pinned.
